@@ -93,6 +93,19 @@ def run_case(ctx, mr, case):
         impl_s = ' '.join('%d,%d,%d,%x,%x,%s' % t for t in sorted(impl))
         if out != impl_s + ' | ' + hx(bytes(r.header)):
             ctx.diff('corr', 'nandhdr-model', case, out[:300], (impl_s + ' | ...')[:300], 'NCSD NAND header: Coq model and reader differ')
+        if truth.get('wrap_at') is not None:
+            # one read across the place where the low half of the counter runs out
+            X = truth['wrap_at']
+            ctx.stat('counter_carry_cases')
+            for (start, end, kind, idx) in info['regions']:
+                if start <= X - 24 and X + 40 <= end and kind in ('ctr_old', 'ctr_new'):
+                    fh = r.open_raw_section(idx)
+                    fh.seek(X - 24 - start)
+                    got = fh.read(64)
+                    want = NB.expected_plain(img, spec, kind, X - 24, 64)
+                    if got != want:
+                        ctx.diff('oracle', 'read:counter-carry:' + kind, dict(case, off=X - 24 - start), want.hex()[:64], got.hex()[:64],
+                                 f'section{idx} ({kind}): a read across the block where the low 64 bits of the counter wrap is not the partition plaintext')
         # every NCSD partition view, by index and by alias
         for (start, end, kind, idx) in info['regions']:
             fh = r.open_raw_section(idx)
